@@ -44,6 +44,7 @@ fn run_call(s: &Suite, cfg: &Cfg, pool: &mut Pool, key_of: &mut HashMap<String, 
     let key = match op.as_str() {
         "encrypt_other" => 2,
         "keyswitch" | "encrypt" | "encrypt_zero" => 1,
+        "add_many" | "multiply_many" => *key_of.get(a["ops"][0].as_str().unwrap()).unwrap_or(&1),
         _ => *key_of.get(a["a"].as_str().unwrap()).unwrap_or(&1),
     };
     match res.outcome {
@@ -60,7 +61,7 @@ fn run_call(s: &Suite, cfg: &Cfg, pool: &mut Pool, key_of: &mut HashMap<String, 
 }
 
 fn act(op: &str) -> Value {
-    json!({"op": op, "a": "", "b": "", "p": "", "lvl": 0, "mode": "", "m": 0, "e": 0, "g": 0, "s": 0, "f": ""})
+    json!({"op": op, "a": "", "b": "", "p": "", "lvl": 0, "mode": "", "m": 0, "e": 0, "g": 0, "s": 0, "f": "", "ops": []})
 }
 
 pub fn main(args: &[String]) {
@@ -149,6 +150,16 @@ pub fn main(args: &[String]) {
                 a = act(["add", "sub", "multiply", "multiply", "add"][rng.gen_range(0..5)]);
                 a["a"] = json!(x);
                 a["b"] = json!(y);
+            } else if r < 57 {
+                // k-ary sum / product of 1..4 operands (mostly compatible ones, repetitions allowed)
+                a = act(if rng.gen_bool(0.5) { "add_many" } else { "multiply_many" });
+                let x = pick(&mut rng, &have_ct).clone();
+                let k = rng.gen_range(1..=4);
+                let mut ops = vec![x.clone()];
+                for _ in 1..k {
+                    ops.push(partner(&mut rng, &x, &pool));
+                }
+                a["ops"] = json!(ops);
             } else if r < 58 {
                 a = act("square");
                 a["a"] = json!(pick(&mut rng, &have_ct));
